@@ -500,6 +500,13 @@ def rule_guard_extra(prop, repo):
         ok = False
         why = "loop over the dividend's bits not recognised"
         rows = []
+        if loops:
+            # one iteration is followed from the block that shifts the running remainder (the carry computation), whatever
+            # construct (`for`, `while`, iterator) drives the loop
+            nodes0 = set().union(*loops.values())
+            shifts = [bb for bb, t_ in b.calls() if bb in nodes0 and (t_.get("fn") or {}).get("name") == "mul2"]
+            if len(shifts) == 1:
+                entry = shifts[0]
         if entry is not None and loops:
             nodes = set().union(*loops.values())
             atoms = paths.collect_atoms(b, tb, blocks=sorted(nodes))
@@ -823,11 +830,34 @@ def rule_tower_shapes(prop, repo):
     # ---- sparse helpers: table of (function, parameter, component path that the function never reads)
     SPARSE = [("%s::mul_1" % T4, 2, (0,), "b.c0 = 0"), ("%s::mul_015" % T12, 2, (1,), "b.c1 = 0"), ("%s::mul_015" % T12, 2, (2, 0), "b.c2.c0 = 0")]
 
-    def zero_shaped(t, path):
+    def zero_shaped(t, path, depth=0):
         """Is component `path` of term t structurally zero?"""
         t = strip(t)
+        if depth > 8:
+            return False
         if t[0] == "call" and t[1].name == "zero" and not t[2]:
             return True
+        # value taken out of an Option / iterator adaptor: look at what produces the elements
+        if t[0] == "call" and t[1].name in ("unwrap", "expect", "clone", "cloned", "copied", "unwrap_unchecked") and t[2]:
+            return zero_shaped(t[2][0], path, depth + 1)
+        if t[0] == "field" and t[2] == 0 and strip(t[1])[0] == "down":
+            return zero_shaped(strip(t[1])[1], path, depth + 1)
+        if t[0] == "call" and t[1].name == "next" and t[2]:
+            return zero_shaped(t[2][0], path, depth + 1)
+        if t[0] == "mutcall" and t[1].name == "next":
+            return zero_shaped(t[2][t[3]], path, depth + 1)
+        if t[0] == "cycle":
+            return True          # the iterator itself, one step later (co-inductive; a merge still needs a real producer)
+        if t[0] == "phi":
+            real = [x for x in t[1] if strip(x)[0] != "cycle"]
+            return bool(real) and all(zero_shaped(x, path, depth + 1) for x in real)
+        if t[0] == "call" and t[1].name == "map" and len(t[2]) == 2:
+            clo = strip(t[2][1])
+            if clo[0] == "agg" and isinstance(clo[1], tuple) and clo[1][0] == "closure":
+                cbd = F.bodies.get(clo[1][1])
+                if cbd is not None:
+                    return zero_shaped(repo.tb(cbd).return_value(), path, depth + 1)
+            return False
         if not path:
             return False
         if t[0] == "agg" and isinstance(t[1], str) and path[0] < len(t[3]):
@@ -897,6 +927,10 @@ def rule_tower_shapes(prop, repo):
                     continue
                 if not zero_shaped(x, comp):
                     bad.append("%s at %s passes %s" % (cb.rec["path"], loc_of(cb, bb), show(x, maxdepth=3)[:100]))
+        if sites == 0:
+            R.note("%s has no caller any more: nothing to require" % path)
+            R.ok()
+            continue
         R.check(not bad and sites >= 1, "%s:sparse:%s:%s" % (prop, path, desc), "%s ignores %s of its operand, but a caller passes a value that is not structurally zero there: %s" % (path, desc, bad[:2]),
                 b.file_line(), path, sample={"helper": path, "requires": desc, "call_sites": sites})
     return R.finish()
